@@ -12,6 +12,7 @@ import (
 	"os/exec"
 	"path/filepath"
 	"sort"
+	"strconv"
 	"strings"
 	"time"
 
@@ -44,6 +45,9 @@ type HarnessCfg struct {
 	Tiers   map[string]TierCfg `json:"tiers"`
 	Bounds  string             `json:"bounds"` // human-readable statement of bounds
 	Subject []string           `json:"subject"`
+	// NativeRetries: counterexamples of this harness depend on a native map
+	// iteration order; their replay is repeated up to this many times.
+	NativeRetries int `json:"native_retries"`
 }
 
 type PropCfg struct {
@@ -289,6 +293,11 @@ func cmdCheck(args []string) int {
 		if opt.MaxWitnesses > 0 {
 			opt.WitnessEvery = 7 + seed%5
 		}
+		if v, err := strconv.Atoi(os.Getenv("SYMGO_WITNESSES")); err == nil && v > 0 {
+			// debugging aid: replay many more witness paths natively (hunting for
+			// engine/native disagreements, e.g. native map-order dependence)
+			opt.MaxWitnesses = v
+		}
 		if tc.MapOrders {
 			// a path that depends on a map iteration order cannot be steered
 			// natively (Go randomises it): no witness replays in such tiers
@@ -356,7 +365,7 @@ func cmdCheck(args []string) int {
 	for _, r := range runs {
 		tc := r.cfg.Tiers[*tier]
 		for _, v := range r.rep.Violations {
-			pend = append(pend, pending{kind: "violation", h: r.cfg, v: v, c: replayCase{Harness: r.cfg.Func, Draws: v.Draws, Params: tc.Params}})
+			pend = append(pend, pending{kind: "violation", h: r.cfg, v: v, c: replayCase{Harness: r.cfg.Func, Draws: v.Draws, Params: tc.Params, Retries: r.cfg.NativeRetries}})
 		}
 		seenK := map[string]bool{}
 		for _, v := range r.rep.Known {
@@ -364,7 +373,7 @@ func cmdCheck(args []string) int {
 				continue
 			}
 			seenK[v.KnownID] = true
-			pend = append(pend, pending{kind: "known", h: r.cfg, v: v, c: replayCase{Harness: r.cfg.Func, Draws: v.Draws, Params: tc.Params}})
+			pend = append(pend, pending{kind: "known", h: r.cfg, v: v, c: replayCase{Harness: r.cfg.Func, Draws: v.Draws, Params: tc.Params, Retries: r.cfg.NativeRetries}})
 		}
 		for _, w := range r.rep.Witnesses {
 			pend = append(pend, pending{kind: "witness", h: r.cfg, w: w, c: replayCase{Harness: r.cfg.Func, Draws: w.Draws, Params: tc.Params}})
@@ -545,6 +554,11 @@ type replayCase struct {
 	Harness string           `json:"harness"`
 	Draws   []interp.DrawVal `json:"draws"`
 	Params  map[string]int   `json:"params"`
+	// Retries > 0: the outcome depends on a map iteration order that the native
+	// build randomises (the harness can only make the wanted order the most
+	// likely one): a run that ends "ok" is repeated up to Retries times and the
+	// first failing run, if any, is the result. Set for counterexamples only.
+	Retries int `json:"retries,omitempty"`
 }
 
 type nativeResult struct {
